@@ -6,7 +6,16 @@ Ground truth never comes from spok's own report.  It is
 * the **side-effect log**: every generated command appends its marker `(task index, command index)` to a file
   outside the sandbox before doing anything else, so the log says which commands really ran and in which order;
 * the **script**: stdout, stderr and exit status of every generated command are fixed by construction (`CmdSpec`);
-* the **snapshots** of the sandbox `HOME` taken before and after the invocation (`diff`).
+* the **snapshots** of the sandbox `HOME` taken before and after the invocation (`diff`): symbolic links are
+  recorded as links (kind `l`, content = the target string, never followed by the walk); what a link points to
+  is in the snapshot under its own path, so "written through the link" shows as a change of the TARGET path.
+
+Reading of C19 where symbolic links are involved (also in the plug-in's assumptions): a path designates what the
+operating system resolves it to.  "The spokfile" that `--fmt` may rewrite is the file the found path designates
+(through the link; the link itself must stay as it is); "an existing spokfile" for `--init` is anything `os.Stat`
+finds at `<cwd>/spokfile`, so a link to a spokfile kept elsewhere IS one and nothing may be written; a DANGLING
+link designates no spokfile: `--init` may create the file the link names (a new spokfile, nothing overwritten)
+and nothing else; `--init` "appends to .gitignore" = to the file `<cwd>/.gitignore` designates, append or create.
 -/
 namespace Spok.Judge.Cli
 open Spok.App
@@ -38,8 +47,10 @@ structure Ctx where
   world : World
   /-- sandbox-relative paths -/
   cwd : String
-  /-- the spokfile in use (found or given), if any -/
+  /-- the spokfile in use (found or given), if any: the path as spok names it, links NOT resolved -/
   spokfile : Option String
+  /-- the symbolic links of the sandbox: (path of the link, its target string); spok creates and removes none -/
+  links : List (String × String) := []
 deriving Repr
 
 inductive JsonObs where
@@ -167,15 +178,50 @@ def under (dir p : String) : Bool := p == dir || (dir.toList ++ ['/']).isPrefixO
 
 def joinPath (d n : String) : String := if d == "." then n else d ++ "/" ++ n
 
-/-- what a changed path is, in the vocabulary of the property; `none` = something spok has no business with -/
+/-- the components of a `/`-separated path -/
+def splitSlash : List Char → List Char → List (List Char)
+  | [], cur => [cur.reverse]
+  | c :: cs, cur => if c == '/' then cur.reverse :: splitSlash cs [] else splitSlash cs (c :: cur)
+
+def normComps : List (List Char) → List (List Char) → List (List Char)
+  | [], acc => acc.reverse
+  | c :: cs, acc =>
+    if c.isEmpty || c == ['.'] then normComps cs acc
+    else if c == ['.', '.'] then normComps cs (acc.drop 1)
+    else normComps cs (c :: acc)
+
+/-- `filepath.Clean` on a sandbox-relative path: `.` and empty components dropped, `..` applied -/
+def normPath (p : String) : String :=
+  match normComps (splitSlash p.toList []) [] with
+  | [] => "."
+  | cs => String.ofList (List.intercalate ['/'] cs)
+
+def linkTarget (links : List (String × String)) (p : String) : Option String := (links.find? (·.1 == p)).map (·.2)
+
+/-- what `p` designates once symbolic links at its LAST component are followed (relative targets are read from the
+    directory of the link, as the kernel does); fuel-bounded: running out of fuel is a link loop -/
+def resolve (links : List (String × String)) : Nat → String → String
+  | 0, p => p
+  | fuel + 1, p =>
+    match linkTarget links p with
+    | some t => resolve links fuel (normPath (joinPath (dirOf p) t))
+    | none => p
+
+def resolveFuel : Nat := 8
+
+def Ctx.real (c : Ctx) (p : String) : String := resolve c.links resolveFuel p
+
+/-- what a changed path is, in the vocabulary of the property; `none` = something spok has no business with.
+    Paths spok names are taken through the links (`Ctx.real`); a change of a link ITSELF (retargeted, replaced by
+    a file, removed) is therefore never one of the permitted writes. -/
 def classify (c : Ctx) (path kind : String) : Option Write :=
   let cacheDir := c.spokfile.map (fun s => joinPath (dirOf s) ".spok")
   if cacheDir.any (under · path) then some ⟨.cache, .modify⟩
-  else if some path == c.spokfile then
+  else if some path == c.spokfile.map c.real then
     (if kind == "mod" || kind == "app" then some ⟨.spokfile, .modify⟩ else none)
-  else if path == joinPath c.cwd "spokfile" then
+  else if path == c.real (joinPath c.cwd "spokfile") then
     (if kind == "new" then some ⟨.cwdSpokfile, .create⟩ else none)
-  else if path == joinPath c.cwd ".gitignore" then
+  else if path == c.real (joinPath c.cwd ".gitignore") then
     (if kind == "new" || kind == "app" then some ⟨.cwdGitignore, .append⟩ else none)
   else none
 
